@@ -4,19 +4,29 @@ Model: encode a Python string to units of T (bytes; UTF-16 with surrogate
 pairs; UTF-32) and decode units back.  ASan red zones decide over-long
 writes (ffi.new bodies are malloc'ed).
 """
-import sys, os, struct
+import sys, os, struct, operator
 from vlib import gen, core
 
 MEMCHECK_SAMPLE = 4
 RULE = ("case = (character type T in char/signed char/unsigned char/wchar_t/char16_t/char32_t, "
-        "operation, string): round-trip new->string, string() with embedded zeros and maxlen on "
-        "arrays and pointers, unpack(n), and assignment of a string to a fixed T[N] through "
-        "new-initializer / item of T[k][N] / struct field / pointer-to-array, N in len-1..len+3, "
+        "operation, string): round-trip new->string (also through a flexible array member of a "
+        "struct and through a T* call argument, which builds a temporary T[] with the same "
+        "converter), string() with embedded zeros and maxlen (positional and keyword) and "
+        "unpack(n) on arrays created as T[N] / T[] / slice of a larger array / from_buffer / "
+        "struct field and on pointers, with surrogate pairs in 16-bit memory and cuts inside a "
+        "pair; assignment of a string to a fixed T[N] through new-initializer / item of "
+        "T[k][N] / struct field / pointer-to-array / struct initializer (dict and list, on "
+        "non-zeroed memory) / slice of T[k][N] / nested list initializer, N in len-1..len+3, "
         "over previous non-zero contents; strings over all byte values, BMP, astral, lone "
-        "surrogates; distinct = (T, op, string, N); non-trivial = len(s) >= 1")
-ASSUMPTIONS = ["for 16-bit types a high surrogate is never generated directly before a low one "
-               "(indistinguishable from an astral character in UTF-16)",
-               "char32_t/wchar_t memory is only filled with valid code points for decoding checks"]
+        "surrogates, lengths 0..17(40) and a share of long ones (60..700 units); an exception "
+        "on an in-scope input is a violation; distinct = (T, op, string, N); "
+        "non-trivial = len(s) >= 1")
+ASSUMPTIONS = ["for 16-bit types a Python string never has a high surrogate directly before a "
+               "low one (indistinguishable from an astral character in UTF-16); memory read "
+               "back may contain pairs, they decode to one astral character",
+               "char32_t/wchar_t memory is only filled with valid code points for decoding checks",
+               "a str/bytes passed for a 'const T *' parameter is converted like ffi.new('T[]', s) "
+               "(cffi documentation); bytes for char pointers are passed without a copy"]
 
 TYPES = [('char', 1), ('signed char', 1), ('unsigned char', 1), ('wchar_t', 4),
          ('char16_t', 2), ('char32_t', 4)]
@@ -65,6 +75,9 @@ def fix16(s):
     return ''.join(out)
 
 
+LONG_LENGTHS = [60, 127, 128, 129, 255, 256, 257, 300, 511, 512, 513, 700]
+
+
 def generate(ctx):
     rng = ctx.rng('gen')
     n = ctx.scale(1500, 60000)
@@ -73,14 +86,17 @@ def generate(ctx):
         for op in ('roundtrip', 'string_maxlen', 'unpack', 'assign'):
             items = []
             for _ in range(n):
+                # a share of long strings: call arguments switch from alloca to malloc
+                # above 512 bytes, unicode storage kinds and copy loops see long runs
+                ln = rng.choice(LONG_LENGTHS) if rng.random() < 0.015 else None
                 if size == 1:
-                    s = gen.rand_bytes(rng)
+                    s = gen.rand_bytes(rng, ln)
                     items.append(['b', s.hex(), rng.randrange(-1, 4), rng.getrandbits(30)])
                 else:
                     kinds = rng.choice([('ascii',), ('bmp', 'ascii'), ('astral', 'bmp'),
                                         ('surrogate', 'ascii', 'astral'),
                                         ('ascii', 'latin', 'bmp', 'astral', 'surrogate')])
-                    s = gen.rand_str(rng, kinds=kinds)
+                    s = gen.rand_str(rng, ln, kinds=kinds)
                     if size == 2:
                         s = fix16(s)
                     items.append(['u', [ord(c) for c in s], rng.randrange(-1, 4),
@@ -92,10 +108,26 @@ def generate(ctx):
 def child_setup(setup, wd):
     from cffi import FFI
     ffi = FFI()
+    # struct with a flexible array member of every character type
     for T, size in TYPES:
-        for N in range(0, 60):
-            pass
-    return {'ffi': ffi, 'structs': {}}
+        ffi.cdef('struct flex_%s { int n; %s f[]; };' % (T.replace(' ', '_'), T))
+    # memory that is handed out dirty: terminators must be written, not inherited
+    keep = []
+
+    def dirty_alloc(nbytes):
+        m = ffi.new('char[]', nbytes + 8)
+        ffi.buffer(m)[:] = b'\xaa' * (nbytes + 8)
+        keep.append(m)
+        return m
+    dirty = ffi.new_allocator(alloc=dirty_alloc, free=None, should_clear_after_alloc=False)
+    # one FFI per character type declaring memcpy with a 'const T *' source: the
+    # observation point for the temporary array built for a str/bytes argument
+    libs = {}
+    for T, size in TYPES:
+        f = FFI()
+        f.cdef('void *memcpy(void *, const %s *, size_t);' % T)
+        libs[T] = (f, f.dlopen(None))
+    return {'ffi': ffi, 'structs': {}, 'dirty': dirty, 'dirty_keep': keep, 'libs': libs}
 
 
 def units_of(ffi, cd, size, count=None):
@@ -104,8 +136,77 @@ def units_of(ffi, cd, size, count=None):
     return list(struct.unpack('<%d%s' % (n, FMT[size]), b[:n * size]))
 
 
+def pack(units, size):
+    return struct.pack('<%d%s' % (len(units), FMT[size]), *units)
+
+
 def fill(ffi, cd, units, size):
-    ffi.buffer(cd)[:] = struct.pack('<%d%s' % (len(units), FMT[size]), *units)
+    ffi.buffer(cd)[:] = pack(units, size)
+
+
+def struct_for(st, T, N):
+    """struct { char a; T f[N]; T g; } declared once per (T, N)"""
+    key = (T, N)
+    if key not in st['structs']:
+        nm = 's_%s_%d' % (T.replace(' ', '_'), N)
+        st['ffi'].cdef('struct %s { char a; %s f[%d]; %s g; };' % (nm, T, N, T))
+        st['structs'][key] = nm
+    return st['structs'][key]
+
+
+class Raised(Exception):
+    """a cffi operation raised on an input the property covers"""
+
+    def __init__(self, what, exc):
+        Exception.__init__(self, what)
+        self.what = what
+        self.exc = exc
+
+
+def do(what, fn, *args, **kw):
+    try:
+        return fn(*args, **kw)
+    except Exception as e:
+        raise Raised(what, e)
+
+
+def is_hi(u):
+    return 0xD800 <= u <= 0xDBFF
+
+
+def is_lo(u):
+    return 0xDC00 <= u <= 0xDFFF
+
+
+SOURCE_MODES = ('fixed', 'open', 'slice', 'frombuf', 'field')
+TAIL = [0x62, 0x63, 0x64]      # non-zero units behind a view: an overrun shows in the result
+
+
+def make_source(st, T, size, mem, mode, rnd, SENT):
+    """an array cdata of exactly len(mem) units holding mem -> (array, keepalive)"""
+    ffi = st['ffi']
+    total = len(mem)
+    if mode == 'fixed':
+        arr = ffi.new('%s[%d]' % (T, total))
+        fill(ffi, arr, mem, size)
+        return arr, arr
+    if mode == 'open':
+        arr = ffi.new(T + '[]', total)
+        fill(ffi, arr, mem, size)
+        return arr, arr
+    if mode == 'slice':
+        pre = rnd.randrange(0, 3)
+        big = ffi.new(T + '[]', pre + total + len(TAIL))
+        fill(ffi, big, [0x61] * pre + mem + TAIL, size)
+        return big[pre:pre + total], big
+    if mode == 'frombuf':
+        ba = bytearray(pack(mem + TAIL, size))
+        arr = ffi.from_buffer(T + '[]', memoryview(ba)[:total * size])
+        return arr, (ba, arr)
+    sp = ffi.new('struct %s *' % struct_for(st, T, total))
+    fill(ffi, sp.f, mem, size)
+    sp.g = SENT
+    return sp.f, sp
 
 
 def child_case(st, case):
@@ -115,6 +216,8 @@ def child_case(st, case):
     rep = core.ChildRep()
     SENT = 0x55 if T in ('signed char', 'unsigned char') else \
         (bytes([0x55]) if size == 1 else chr(0x55))
+    DIRTY = int.from_bytes(b'\xaa' * size, 'little')
+    flex = 'struct flex_%s *' % T.replace(' ', '_')
     for kind, payload, dn, seed in case['items']:
         rnd = random.Random(seed)
         s = bytes.fromhex(payload) if kind == 'b' else ''.join(chr(c) for c in payload)
@@ -122,15 +225,18 @@ def child_case(st, case):
         L = len(units)
         maxu = (1 << (8 * size)) - 1 if size < 4 else 0x10FFFF
         detail = [kind, payload, dn, seed]
+        del st['dirty_keep'][:]
+        if L >= 60:
+            rep.stat('long_strings')
         try:
             if op == 'roundtrip':
-                p = ffi.new(T + '[]', s)
+                p = do('new', ffi.new, T + '[]', s)
                 rep.case((T, op, payload), nontrivial=L >= 1,
                          sample={'T': T, 'op': op, 's': repr(s)[:60]})
                 if len(p) != L + 1:
                     rep.bad('new-length', "len(ffi.new('%s[]', %r)) = %d, expected %d" %
                             (T, s, len(p), L + 1), detail)
-                got = ffi.string(p)
+                got = do('string', ffi.string, p)
                 if got != s:
                     rep.bad('roundtrip', "ffi.string(ffi.new('%s[]', %r)) = %r" % (T, s, got),
                             detail)
@@ -139,19 +245,10 @@ def child_case(st, case):
                             detail)
                 # the same through an allocator that hands out dirty memory: the
                 # terminator must be written, not inherited from zeroed memory
-                keep = []
-
-                def dirty_alloc(nbytes):
-                    m = ffi.new('char[]', nbytes + 8)
-                    ffi.buffer(m)[:] = b'\xaa' * (nbytes + 8)
-                    keep.append(m)
-                    return m
-                alloc = ffi.new_allocator(alloc=dirty_alloc, free=None,
-                                          should_clear_after_alloc=False)
-                pa = alloc(T + '[]', s)
+                pa = do('new', st['dirty'], T + '[]', s)
                 rep.stat('roundtrip_dirty_allocator')
                 if len(pa) != L + 1 or units_of(ffi, pa, size) != units + [0] or \
-                        ffi.string(pa) != s:
+                        do('string', ffi.string, pa) != s:
                     rep.bad('roundtrip-dirty-allocator', "allocator('%s[]', %r) on non-zeroed "
                             'memory stores %r, string() = %r' %
                             (T, s, units_of(ffi, pa, size), ffi.string(pa, L + 4)), detail)
@@ -160,94 +257,149 @@ def child_case(st, case):
                 oldu = [rnd.randrange(1, 100) for _ in range(L + 3)]
                 fill(ffi, mem, oldu, size)
                 pp = ffi.cast(T + '(*)[]', mem)
-                pp[0] = s
+                do('assign', operator.setitem, pp, 0, s)
                 rep.stat('assign_open_array')
                 if units_of(ffi, mem, size) != units + [0] + oldu[L + 1:]:
                     rep.bad('assign-terminator:open-array', '%s(*)[] <- %r over %r leaves %r' %
                             (T, s, oldu, units_of(ffi, mem, size)), detail)
                 # fixed size exactly L: no terminator, string() stops at the array end
                 if L:
-                    q = ffi.new('%s[%d]' % (T, L), s)
-                    if ffi.string(q) != s:
+                    q = do('new', ffi.new, '%s[%d]' % (T, L), s)
+                    if do('string', ffi.string, q) != s:
                         rep.bad('roundtrip-exact-fit', "%s[%d] from %r: string() = %r" %
                                 (T, L, s, ffi.string(q)), detail)
                     rep.stat('exact_fit')
+                # a flexible array member initialized with the string: the allocation is
+                # sized from the string (+1), the field reads back as an array
+                init = [L, s] if rnd.random() < 0.5 else {'f': s}
+                pf = do('new', ffi.new, flex, init)
+                fa = pf.f
+                rep.stat('flex_member_init')
+                if len(fa) < L + 1 or units_of(ffi, fa, size, L + 1) != units + [0] or \
+                        do('string', ffi.string, fa) != s:
+                    rep.bad('roundtrip-flexible-member', "%s f[] initialized with %r: len %d, "
+                            'units %r, string() = %r' % (T, s, len(fa), units_of(ffi, fa, size),
+                                                         ffi.string(fa, L + 1)), detail)
+                else:
+                    # and a shorter string assigned to it over non-zero contents
+                    t = s[:len(s) // 2]
+                    tu = encode(t, size)
+                    oldf = [rnd.randrange(1, 100) for _ in range(len(fa))]
+                    fill(ffi, fa, oldf, size)
+                    do('assign', setattr, pf, 'f', t)
+                    rep.stat('flex_member_assign')
+                    if units_of(ffi, fa, size) != tu + [0] + oldf[len(tu) + 1:]:
+                        rep.bad('assign-terminator:flexible-member', '%s f[] (old %r) <- %r '
+                                'leaves %r' % (T, oldf, t, units_of(ffi, fa, size)), detail)
+                # the string as a 'const T *' call argument: memcpy copies L+1 units out
+                # of whatever the callee receives
+                f2, lib = st['libs'][T]
+                dst = f2.new(T + '[]', L + 2)
+                fill(f2, dst, [0x7e] * (L + 2), size)
+                do('call', lib.memcpy, dst, s, (L + 1) * size)
+                rep.stat('call_argument')
+                if (L + 1) * size > 512:
+                    rep.stat('call_argument_over_512_bytes')
+                if units_of(f2, dst, size) != units + [0, 0x7e]:
+                    rep.bad('call-argument-units', "callee of f(const %s *) given %r sees %r" %
+                            (T, s, units_of(f2, dst, size)), detail)
             elif op in ('string_maxlen', 'unpack'):
                 # memory with embedded zeros
                 total = L + 3
                 mem = list(units) + [rnd.randrange(1, 100) for _ in range(3)]
                 for _ in range(rnd.choice([0, 1, 1, 2])):
                     mem[rnd.randrange(total)] = 0
-                if size == 2:
-                    mem = encode(fix16(decode(mem, 2)), 2) if 0 not in mem else mem
-                    # re-fix pairs created by concatenation
-                    for i in range(1, len(mem)):
-                        if 0xD800 <= mem[i - 1] <= 0xDBFF and 0xDC00 <= mem[i] <= 0xDFFF:
-                            mem[i] = 0x41
-                    total = len(mem)
-                arr = ffi.new('%s[%d]' % (T, total))
-                fill(ffi, arr, mem, size)
+                if size == 2 and rnd.random() < 0.5:
+                    # a surrogate pair anywhere (also across the end of the string part)
+                    c = rnd.choice([0, 0xFFFFF, rnd.randrange(0x100000)])
+                    pos = rnd.randrange(total - 1)
+                    mem[pos] = 0xD800 | (c >> 10)
+                    mem[pos + 1] = 0xDC00 | (c & 0x3FF)
+                    rep.stat('memory_surrogate_pair_injected')
+                # cut points between the two halves of a pair
+                inpair = [i + 1 for i in range(total - 1)
+                          if size == 2 and is_hi(mem[i]) and is_lo(mem[i + 1])]
+                if inpair:
+                    rep.stat('memory_with_surrogate_pair')
+                mode = rnd.choice(SOURCE_MODES)
+                arr, keepalive = make_source(st, T, size, mem, mode, rnd, SENT)
+                rep.stat('source_' + mode)
+                if len(arr) != total:
+                    rep.bad('harness-exception', 'source %s has length %d != %d' %
+                            (mode, len(arr), total), detail)
                 ptr = ffi.cast(T + ' *', arr)
                 rep.case((T, op, tuple(mem)), nontrivial=L >= 1,
-                         sample={'T': T, 'op': op, 'units': mem[:20]})
+                         sample={'T': T, 'op': op, 'units': mem[:20], 'source': mode})
                 if op == 'string_maxlen':
                     z = mem.index(0) if 0 in mem else total
                     exp = decode(mem[:z], size)
-                    got = ffi.string(arr)
+                    got = do('string', ffi.string, arr)
+                    if z == total:
+                        rep.stat('string_array_without_zero_' + mode)
                     if got != exp:
-                        rep.bad('string-array', '%s[%d] units %r: string() = %r, expected %r' %
-                                (T, total, mem, got, exp), detail)
+                        rep.bad('string-array', '%s[%d] (%s) units %r: string() = %r, expected %r'
+                                % (T, total, mode, mem, got, exp), detail)
                     # an explicit maxlen is the caller's bound (as in C): values
                     # beyond the array length are outside the statement
                     for ml in sorted({0, 1, z - 1, z, z + 1, total - 1, total,
-                                      rnd.randrange(0, total + 1)}):
+                                      rnd.randrange(0, total + 1)} | set(inpair)):
                         if ml < 0 or ml > total:
                             continue
                         e = decode(mem[:min(z, ml, total)], size)
-                        g = ffi.string(arr, ml)
+                        if rnd.random() < 0.5:
+                            g = do('string', ffi.string, arr, ml)
+                        else:
+                            g = do('string', ffi.string, arr, maxlen=ml)
                         rep.stat('string_maxlen_calls')
+                        if ml in inpair and ml <= z:
+                            rep.stat('maxlen_cuts_surrogate_pair')
                         if g != e:
-                            rep.bad('string-maxlen-array', '%s[%d] units %r: string(maxlen=%d) = '
-                                    '%r, expected %r' % (T, total, mem, ml, g, e), detail)
+                            rep.bad('string-maxlen-array', '%s[%d] (%s) units %r: '
+                                    'string(maxlen=%d) = %r, expected %r' %
+                                    (T, total, mode, mem, ml, g, e), detail)
                         if ml <= total:   # pointers do not know their length
-                            g = ffi.string(ptr, ml)
+                            g = do('string', ffi.string, ptr, ml)
                             if g != e:
                                 rep.bad('string-maxlen-pointer', '%s* units %r: string(maxlen=%d)'
                                         ' = %r, expected %r' % (T, mem, ml, g, e), detail)
                     if 0 in mem:
-                        g = ffi.string(ptr)
+                        g = do('string', ffi.string, ptr)
                         if g != exp:
                             rep.bad('string-pointer', '%s* units %r: string() = %r, expected %r'
                                     % (T, mem, g, exp), detail)
                 else:
-                    for k in sorted({0, 1, L, total, rnd.randrange(0, total + 1)}):
+                    for k in sorted({0, 1, L, total, rnd.randrange(0, total + 1)} | set(inpair)):
                         cut = mem[:k]
-                        if size == 2 and cut and 0xD800 <= cut[-1] <= 0xDBFF:
-                            pass
+                        if k in inpair:
+                            rep.stat('unpack_cuts_surrogate_pair')
                         e = decode(cut, size)
                         if T == 'signed char':     # an integer type for unpack()
                             e = [u - 256 if u > 127 else u for u in cut]
                         elif T == 'unsigned char':
                             e = list(cut)
                         for src in (arr, ptr):
-                            g = ffi.unpack(src, k)
+                            g = do('unpack', ffi.unpack, src, k)
                             rep.stat('unpack_calls')
                             if g != e or len(g if isinstance(g, list) else
                                              encode(g, size)) != k:
                                 rep.bad('unpack-length', '%s units %r: unpack(%d) = %r, expected '
                                         '%r' % (T, mem, k, g, e), detail)
+                del keepalive
             elif op == 'assign':
                 N = max(0, L + dn)
                 old = [rnd.randrange(1, min(maxu, 0xD7FF)) for _ in range(N)]
                 fits = L <= N
                 exp_units = (units + ([0] if L < N else []) + old[L + 1:]) if fits else old
-                for path in ('new', 'item', 'field', 'ptr'):
+                extra = rnd.choice(('structinit', 'sliceitem', 'nestedinit'))
+                for path in ('new', 'item', 'field', 'ptr', extra):
                     rep.case((T, op, path, payload, N), nontrivial=L >= 1,
                              sample={'T': T, 'op': op, 'path': path, 's': repr(s)[:40], 'N': N})
                     rep.stat('assign_' + path)
                     if fits and L < N:
                         rep.stat('assign_shorter')
                     exc = None
+                    now = None
+                    changed = False      # a rejected assignment changed memory
                     if path == 'new':
                         try:
                             a = ffi.new('%s[%d]' % (T, N), s)
@@ -255,12 +407,41 @@ def child_case(st, case):
                         except Exception as e:
                             exc = type(e).__name__
                         e_units = (units + [0] * (N - L)) if fits else None
+                    elif path == 'nestedinit':
+                        # rows of T[3][N] initialized from a list of strings
+                        try:
+                            a = ffi.new('%s[3][%d]' % (T, N), [s, s])
+                            allu = units_of(ffi, a, size)
+                            now = allu[N:2 * N]
+                            if allu[:N] != now or allu[2 * N:] != [0] * N:
+                                rep.bad('assign-neighbour', '%s[3][%d] from [%r, %r] stores %r'
+                                        % (T, N, s, s, allu), detail)
+                        except Exception as e:
+                            exc = type(e).__name__
+                        e_units = (units + [0] * (N - L)) if fits else None
+                    elif path == 'structinit':
+                        # struct initializer (dict or list) on memory that is not zeroed
+                        nm = struct_for(st, T, N)
+                        init = {'f': s, 'g': SENT} if rnd.random() < 0.5 else [b'a', s, SENT]
+                        try:
+                            sp = st['dirty']('struct %s *' % nm, init)
+                            now = units_of(ffi, sp.f, size) if N else []
+                            if sp.g != SENT or sp.a != b'a' and isinstance(init, list):
+                                rep.bad('assign-neighbour', 'struct initializer %s f[%d] = %r '
+                                        'changed another field' % (T, N, s), detail)
+                        except Exception as e:
+                            exc = type(e).__name__
+                        e_units = (units + ([0] if L < N else []) +
+                                   [DIRTY] * (N - L - 1)) if fits else None
                     else:
-                        if path == 'item':
+                        if path in ('item', 'sliceitem'):
                             outer = ffi.new('%s[3][%d]' % (T, N))
                             fill(ffi, outer, [7] * N + old + [9] * N, size)
                             try:
-                                outer[1] = s
+                                if path == 'item':
+                                    outer[1] = s
+                                else:
+                                    outer[1:2] = [s]
                             except Exception as e:
                                 exc = type(e).__name__
                             allu = units_of(ffi, outer, size)
@@ -269,12 +450,7 @@ def child_case(st, case):
                                 rep.bad('assign-neighbour', '%s[3][%d] item 1 = %r changed '
                                         'neighbours' % (T, N, s), detail)
                         elif path == 'field':
-                            key = (T, N)
-                            if key not in st['structs']:
-                                nm = 's_%s_%d' % (T.replace(' ', '_'), N)
-                                ffi.cdef('struct %s { char a; %s f[%d]; %s g; };' % (nm, T, N, T))
-                                st['structs'][key] = nm
-                            sp = ffi.new('struct %s *' % st['structs'][key])
+                            sp = ffi.new('struct %s *' % struct_for(st, T, N))
                             if N:
                                 fill(ffi, sp.f, old, size)
                             sp.g = SENT
@@ -297,6 +473,7 @@ def child_case(st, case):
                                 exc = type(e).__name__
                             now = units_of(ffi, a, size)
                         e_units = exp_units if fits else None
+                        changed = now != old
                     if fits:
                         if exc:
                             rep.bad('assign-raised:' + path, '%s[%d] <- %r raised %s' %
@@ -310,9 +487,12 @@ def child_case(st, case):
                         if exc != 'IndexError':
                             rep.bad('assign-too-long:' + path, '%s[%d] <- %r (%d units) via %s: '
                                     '%s' % (T, N, s, L, path, exc or 'accepted'), detail)
-                        elif path != 'new' and now != old:
+                        elif changed:
                             rep.bad('assign-too-long-changed-memory:' + path,
                                     '%s[%d] <- too long %r changed memory' % (T, N, s), detail)
+        except Raised as r:
+            rep.bad('raised:' + r.what, '%s on an in-scope input (%s, %s, %r) raised %s: %s' %
+                    (r.what, T, op, s[:40], type(r.exc).__name__, str(r.exc)[:200]), detail)
         except Exception as e:
             import traceback
             rep.bad('harness-exception', traceback.format_exc()[-800:], detail)
